@@ -3,6 +3,7 @@ from tools import schedgen as sg
 
 LEVEL = "proof"
 JOBS = 16
+RETRY_TIMING = True
 CORRESPONDENCE = ("Model/PoolLts.lean (the pools as a transition system over their critical sections: check-out with probe / connect, the "
                   "transaction, return, maintenance scan and push, shutdown; peer behaviour part of the state) vs the real SmtpTransport and "
                   "tokio AsyncSmtpTransport pools driven through forced orders of their critical sections by the verif-hooks scheduling "
@@ -45,7 +46,7 @@ def gen(tier, rng):
         senders, sends = rng.choice([(2, 3), (3, 2), (4, 1), (3, 3), (4, 2)])
         mx = rng.choice([1, 2, 3])
         pre = rng.choice([0, 0, 1, 2, 3])
-        faults = sg.random_faults(rng, 8, 0.35) if rng.random() < 0.5 else []
+        faults = sg.random_faults(rng, 8, 0.35, kind) if rng.random() < 0.5 else []
         cases.append(sg.line(kind, mx, pre, 60000, senders, sends, faults, sg.prefill(pre) + sg.random_schedule(rng, kind, senders, sends)))
     if tier == "thorough":
         for kind in "s":
@@ -53,6 +54,11 @@ def gen(tier, rng):
                 for p in sg.multiset_perms(sg.sender_tokens(kind, senders, sends)):
                     cases.append(sg.line(kind, 2, 1, 60000, senders, sends, [], sg.prefill(1) + list(p)))
     return cases
+
+
+def timing_dependent(case):
+    # real threads against a real peer: a disagreement is re-run alone before it counts
+    return True
 
 
 def nontrivial(case):
